@@ -234,10 +234,27 @@ impl VecZnx<Vec<u8>> {
     }
 }
 
-impl<D: Data> VecZnx<D> {
-    /// Constructs a `VecZnx` from raw parts without validation.
+impl<D: DataRef> VecZnx<D> {
+    /// Constructs a `VecZnx` from raw parts.
     /// Sets `max_size = size`.
+    ///
+    /// # Panics
+    ///
+    /// Panics if the buffer holds fewer than `n * cols * size` `i64` words or is not aligned for `i64`.
     pub fn from_data(data: D, n: usize, cols: usize, size: usize) -> Self {
+        let need: Option<usize> = n
+            .checked_mul(cols)
+            .and_then(|x| x.checked_mul(size))
+            .and_then(|x| x.checked_mul(size_of::<i64>()));
+        assert!(
+            matches!(need, Some(b) if b <= data.as_ref().len()),
+            "from_data: buffer of {} bytes too small for n={n} cols={cols} size={size}",
+            data.as_ref().len()
+        );
+        assert!(
+            (data.as_ref().as_ptr() as usize).is_multiple_of(align_of::<i64>()),
+            "from_data: buffer not aligned for i64"
+        );
         Self {
             data,
             n,
